@@ -85,6 +85,8 @@ def _pol_arith(p):
         return False
     item = p.cls.split("|", 1)[1]
     item = item.split("__")[0]
+    if item.endswith("_vs_checked"):
+        item = item[:-len("_vs_checked")]
     for pre in ("checked_", "wrapping_", "saturating_", "overflowing_", "Fixed_", "FixedSigned_", "FixedUnsigned_"):
         if item.startswith(pre):
             item = item[len(pre):]
@@ -98,6 +100,8 @@ def _pol_base(p, bases, families=("E-pol", "E-sat", "E-del")):
     if p.family not in families:
         return False
     item = p.cls.split("|", 1)[1].split("__")[0]
+    if item.endswith("_vs_checked"):
+        item = item[:-len("_vs_checked")]
     for _ in range(2):
         for pre in ("checked_", "wrapping_", "saturating_", "overflowing_", "Fixed_", "FixedSigned_", "FixedUnsigned_"):
             if item.startswith(pre):
